@@ -54,7 +54,85 @@ func TestC01(t *testing.T) {
 	runMany(t, r, ev.Pick(300, 2500), Params{Oracles: OC01, Steps: ev.Pick(80, 400), MaxFacts: 3, BigPayloads: ev.Thorough(), ClockBias: 15, RevokeBias: 8, LatencyPct: 8, FaultPct: 25}, 1)
 	creators.Run(r, "C01", ev.Pick(60, 1200), journal)
 	suffixMigration(t, r)
+	regionalKMS(t, r)
 	r.Finish(t)
+}
+
+// regionalKMS: the factories share the metastore and "the KMS" - here the AWS KMS plug-in (v1 and v2 client) over a
+// two-region cloud. Records written while both regions are up must decrypt in a process of the other region, and in
+// any process while either one of the two regions is unreachable (that is what the multi-region envelope is for).
+func regionalKMS(t *testing.T, r *ev.Run) {
+	for _, version := range []int{1, 2} {
+		for _, cfgName := range []string{"default", "nocache"} {
+			name := fmt.Sprintf("regional-kms/v%d/%s", version, cfgName)
+			journal("C01 " + name)
+			func() {
+				defer func() {
+					if pv := recover(); pv != nil {
+						r.Violation("sdk-panic", fmt.Sprintf("%s: %v", name, pv), nil)
+					}
+				}()
+				synctest.Test(t, func(t *testing.T) {
+					w := world.New("memguard")
+					w.UseAWSKMS(version)
+					defer w.Close()
+					time.Sleep(41 * time.Second)
+					ctx := context.Background()
+					cfg := world.Default(24*time.Hour, time.Hour, time.Minute)
+					if cfgName == "nocache" {
+						cfg.CacheIK, cfg.CacheSK = false, false
+					}
+					type item struct {
+						part string
+						d    *appencryption.DataRowRecord
+						pl   []byte
+					}
+					var items []item
+					fw := w.Factory(cfg, "svc", "prod")
+					for i, part := range []string{"P", "Q", "P"} {
+						s, _ := fw.GetSession(part)
+						pl := []byte(fmt.Sprintf("payload %d of %s", i, part))
+						d, err := s.Encrypt(ctx, pl)
+						if err != nil {
+							r.Violation("encrypt-failed-without-fault", fmt.Sprintf("%s: %v", name, err), nil)
+						} else {
+							items = append(items, item{part, world.CopyDRR(d), pl})
+						}
+						s.Close()
+					}
+					readAll := func(who string, f *appencryption.SessionFactory, down string) {
+						for _, it := range items {
+							s, _ := f.GetSession(it.part)
+							out, err := s.Decrypt(ctx, *world.CopyDRR(it.d))
+							r.Eval(1)
+							if err != nil || !bytes.Equal(out, it.pl) {
+								r.Violation("c01-decrypt-error", fmt.Sprintf("%s: %s cannot decrypt a record of %q while region %q is unreachable: %v", name, who, it.part, down, err),
+									map[string]any{"engine": "hist/regional-kms", "reader": who, "down": down})
+							}
+							s.Close()
+						}
+					}
+					for _, down := range []string{"", world.AWSRegions[0], world.AWSRegions[1]} {
+						if down != "" {
+							w.Cloud.Regions[down].FailDecrypt = true
+						}
+						f1 := w.Factory(cfg, "svc", "prod") // a process in the writers' region, nothing cached
+						readAll("a new process in the writers' region", f1, down)
+						f1.Close()
+						f2 := w.FreshFactory(cfg, "svc", "prod") // a process that prefers the other region
+						readAll("a new process in the other region", f2, down)
+						f2.Close()
+						if down != "" {
+							w.Cloud.Regions[down].FailDecrypt = false
+						}
+					}
+					fw.Close()
+					r.Distinct(name)
+					r.Count("regional_kms_scenarios", 1)
+				})
+			}()
+		}
+	}
 }
 
 
